@@ -75,8 +75,7 @@ range panic itself is unreachable for any deadline while the clock is below `2^3
 theorem C09_server_no_other_panic (limit : Option Nat) (respCap tcap : Nat) (coupled : Bool) (ops : List SOp) :
     ∀ ep m, Obs.panic ep m ∈ (ops.foldl applyOp (initSys limit respCap tcap coupled)).s.obs →
       m = "DelayQueue::insert: invalid deadline" := by
-  obtain ⟨born, h, _⟩ := sinv_reach true limit respCap tcap coupled ops
-  exact fun ep m hm => (h.panics ep m hm).1
+  exact fun ep m hm => ((sinv_reach true limit respCap tcap coupled ops).panics ep m hm).1
 
 /-- **Why the clamp is needed (the obligation of `C16_server_no_panic` is not vacuous).**  *Without* the
 clamp — arming the timer with the full `deadline - now` — `DelayQueue::insert` panics for every request
